@@ -659,6 +659,12 @@ def _sym_extreme(ip, st, args, kw, want_max):
         _raise(ValueError, "max() arg is an empty sequence" if want_max else "min() arg is an empty sequence")
     w = st.fresh_int("argmax" if want_max else "argmin")
     st.assume(both(V._cmp(">=", w, 0), V._cmp("<", w, n)))
+    # contract-side hooks `st.ghost["witness_hooks"]`: called with (sequence, witness index) BEFORE the element at the
+    # witness is evaluated, so that a contract can instantiate facts it has proved for every index (per-index
+    # postconditions / loop invariants proved by universal generalisation) at this index -- e.g. "every key of this
+    # dict is positive" ahead of the division in `max(h / w for w, h in d.items())`.  Hooks may only assume such facts.
+    for hook in list(st.ghost.get("witness_hooks", [])):
+        hook(v, w)
     m = Q.seq_get(v, w)
     if not is_num(m):
         raise Unsupported("min/max over a symbolic sequence of non-numbers")
@@ -1045,6 +1051,8 @@ def _quantified_any_all(ip, st, v, want_any):
 
 
 def b_any(ip, st, x):
+    if isinstance(x, Q.GuardedSeq):
+        return x.fold_any()
     v = ip.iter_view(st, st.force(x))
     if isinstance(v, LRef):
         v = v.seq
@@ -1057,6 +1065,8 @@ def b_any(ip, st, x):
 
 
 def b_all(ip, st, x):
+    if isinstance(x, Q.GuardedSeq):
+        return x.fold_all()
     v = ip.iter_view(st, st.force(x))
     if isinstance(v, LRef):
         v = v.seq
@@ -1310,6 +1320,21 @@ def call_builtin(ip, st, f, args, kwargs):
         return impl(ip, st, *args, **kwargs)
     r = ip.task.call_real(ip, st, f, args, kwargs)
     if r is not NotImplemented:
+        return r
+    if isinstance(f, (types.MethodDescriptorType, types.WrapperDescriptorType)) and getattr(f, "__objclass__", None) is list and args \
+            and isinstance(args[0], SObj) and getattr(args[0], "base_list", None):
+        # `list.<method>(self, ...)` on an object of a list subclass: the unbound form of `super().<method>(...)` when
+        # list is the next class in the MRO that defines it -- the same single list operation on the object's own
+        # list part, recorded in its ghost trace of list operations (x.__delitem__(i) is `del x[i]`, etc.)
+        obj, rest, name = args[0], list(args[1:]), f.__name__
+        lref = obj.fields[obj.base_list]
+        if name == "__delitem__" and len(rest) == 1 and not kwargs:
+            r = list_delitem(ip, st, lref, st.force(rest[0]))
+        elif name == "__setitem__" and len(rest) == 2 and not kwargs:
+            r = list_setitem(ip, st, lref, st.force(rest[0]), rest[1])
+        else:
+            r = list_method(ip, st, lref, name, rest, kwargs)
+        obj.trace.append(("list-op", name, getattr(lref, "last_removed", None)))
         return r
     if isinstance(f, operator.attrgetter) and len(args) == 1 and not kwargs:
         # operator.attrgetter('a.b', ...)(obj): CPython reads the (dotted) attributes of obj, one value for one name,
